@@ -47,7 +47,7 @@ MIN_NONTRIVIAL = 100
 
 def plan(tier, seed):
     if tier == "quick":
-        kinds = {"meta": 700, "peak": 400, "wave": 900, "count": 500}
+        kinds = {"meta": 700, "peak": 400, "wave": 900, "count": 900}
         per = 120
     else:
         kinds = {"meta": 40000, "peak": 20000, "wave": 40000, "count": 20000}
@@ -113,6 +113,18 @@ def gen(rng, kind, tier):
                 "threshold": str(rng.choice(["auto", "extrema", "mean"])), "stretch": float(2.0 ** int(rng.integers(-4, 5))),
                 "scale": float(rng.choice([2.0, 0.125, 7.0])), "roll": [int(rng.integers(-n, n + 1)) for n in shape],
                 "expected_count": len(cells)}
+    if kind == "count" and rng.random() < 0.5:
+        # elongated, non-winding domains next to each other: their equal-volume spheres overlap in
+        # chains, so the count exercises the overlap removal; mixed periodicity (translations only
+        # along the periodic axes)
+        spec = _grid(rng, 2)
+        if rng.random() < 0.6:
+            per = [True, False] if rng.random() < 0.5 else [False, True]
+            spec["periodic"] = per
+        return {"grid": spec, "field": {"type": "bars", "seed": int(rng.integers(1 << 30))},
+                "threshold": str(rng.choice(["0.5", "auto", "mean"])), "stretch": float(2.0 ** int(rng.integers(-4, 5))),
+                "scale": float(rng.choice([2.0, 0.125, 7.0])),
+                "roll": [int(rng.integers(-n, n + 1)) if p else 0 for n, p in zip(spec["shape"], spec["periodic"])]}
     if kind == "count":
         spec = _grid(rng, dim)
         return {"grid": spec, "field": {"type": "droplets", "seed": int(rng.integers(1 << 30))},
@@ -146,6 +158,28 @@ def make_data(spec, f):
             d2 = sum(np.minimum(np.abs(idx[a] + 0.5 - c[a]), shape[a] - np.abs(idx[a] + 0.5 - c[a])) ** 2 for a in range(len(shape)))
             data += 0.5 + 0.5 * np.tanh((rad - np.sqrt(d2)) / 0.8)
         return np.clip(data, 0, 1)
+    if t == "bars":
+        data = np.zeros(shape)
+        per = spec["periodic"]
+        ax = 0 if per[0] or not per[1] else 1  # bars run along a periodic axis if there is one
+        n_long, n_across = shape[ax], shape[1 - ax]
+        k = int(r.integers(3, 7))
+        lengths = r.permutation(np.arange(int(0.4 * n_long), int(0.86 * n_long)))[:k]  # pairwise distinct
+        y = int(r.integers(1, 4))
+        for L in lengths:
+            th = int(r.integers(2, 5))
+            if y + th >= n_across - 1:
+                break
+            x0 = int(r.integers(0, n_long)) if per[ax] else int(r.integers(0, max(1, n_long - int(L))))
+            xs = (x0 + np.arange(int(L))) % n_long if per[ax] else x0 + np.arange(int(L))
+            sl = [None, None]
+            for xx in xs:
+                if ax == 0:
+                    data[int(xx), y:y + th] = 1.0
+                else:
+                    data[y:y + th, int(xx)] = 1.0
+            y += th + int(r.integers(1, 4))
+        return data
     if t == "separated":
         data = np.zeros(shape)
         for c, rad in f["cells"]:
@@ -296,9 +330,13 @@ def run(case, rec, *, ignore_known=False):
             if any(cc["winding"] for cc in comps):
                 rec.count("count_roll_skipped_winding_component")
             else:
-                s = ls(rec, spec, np.roll(data, case["roll"], axis=axes), "droplet_detection", **kw)
-                rec.check(s.ok and rel_same(float(s.result), l0, 1e-10), "roll",
-                          f"droplet counting: rolling by {case['roll']} changes {l0} to {s.result if s.ok else s.exc!r}; {label}")
+                rolls = [list(case["roll"])]
+                if case["field"]["type"] == "bars":  # several translations: label order changes with each
+                    rolls += [[(3 * x) // 2 + 1 if x else 0 for x in case["roll"]], [-(x // 3) - 2 if x else 0 for x in case["roll"]]]
+                for rl in rolls:
+                    s = ls(rec, spec, np.roll(data, rl, axis=axes), "droplet_detection", **kw)
+                    rec.check(s.ok and rel_same(float(s.result), l0, 1e-10), "roll",
+                              f"droplet counting: rolling by {rl} changes {l0} to {s.result if s.ok else s.exc!r}; {label}")
             if thr in ("auto", "mean", "extrema"):
                 s = ls(rec, spec, a * data + (0.0 if thr == "mean" else 0.0), "droplet_detection", **kw)
                 rec.check(s.ok and rel_same(float(s.result), l0, 1e-10), "scale",
